@@ -202,6 +202,9 @@ def validate_modbus_rtu_response(data: bytes, cmd: int, offset: int, value: int)
         return False
 
     if data[3] != cmd:
+        if data[3] != cmd | 0x80:
+            logger.debug("Response has unexpected function code: %X, expected %X.", data[3], cmd)
+            return False
         failure_code = FAILURE_CODES.get(data[4], "UNKNOWN")
         logger.debug("Response is command failure: %s.", FAILURE_CODES.get(data[4], "UNKNOWN"))
         raise RequestRejectedException(failure_code)
@@ -249,6 +252,9 @@ def validate_modbus_tcp_response(data: bytes, cmd: int, offset: int, value: int)
             return False
 
     if data[7] != cmd:
+        if data[7] != cmd | 0x80:
+            logger.debug("Response has unexpected function code: %X, expected %X.", data[7], cmd)
+            return False
         failure_code = FAILURE_CODES.get(data[8], "UNKNOWN")
         logger.debug("Response is command failure: %s.", FAILURE_CODES.get(data[8], "UNKNOWN"))
         raise RequestRejectedException(failure_code)
